@@ -96,4 +96,46 @@ CLAIMED = {
         "note": NOTE_COMMON + "  The real hiera-eyaml/PKCS7 is replaced by harness/eyaml_standin.py.",
         "technique": "Coq proof (loop invariant over the rotation model, cipher laws as hypotheses) + differential correspondence with a stand-in eyaml",
     },
+    "C07": {
+        "text": ("18 theorems (Coq, no axioms) over a model of yaml_paths.search_for_paths / yield_children / "
+                 "search_anchor / process_yaml_file / print_results: the search is sound (only satisfying places "
+                 "are reported), complete for value search and complete up to the listed finding F-C07-1 with "
+                 "key-name search (a matching key hides what lies beneath it), reports each place at most once; "
+                 "under each of the four alias-option combinations every visible satisfying place is reported and "
+                 "no excluded aliased repeat is (guards: anchor names not redefined = F-C07-4, anchors exposed; "
+                 "each with a _refuted witness); --expand reports exactly the leaf descendants; printing emits "
+                 "exactly the de-duplicated results.  'Every printed path resolves' is proved for the reported "
+                 "location only; the text -> segments -> location link is judged on the real Processor for every "
+                 "reported path of every case (docs/C07.md).  Tie: documents incl. anchors/aliases/merge keys x nine "
+                 "operators x inversion x options x both notations."),
+        "design_ref": "DESIGN.md section 4 (C07), docs/C07.md",
+        "note": NOTE_COMMON + "  Merge-key membership of map keys is taken from ruamel (side table from docenc.merge_table).",
+        "technique": "Coq proof (structural induction over the document with the seen-anchors list threaded) + differential correspondence",
+    },
+    "C18": {
+        "text": ("9 theorems (Coq, no axioms) over a model of merge_condense_all / merge_across / merge_matrix stated "
+                 "over an abstract pairwise merge (a Section variable, instantiated with the C05 model for "
+                 "execution): condense-all is the left fold over both streams and yields one document; "
+                 "merge-across yields max(|ls|,|rs|) documents, the i-th being merge2 l_i r_i, surplus right "
+                 "documents appended in order, stopping at the first error; matrix yields |ls| documents, each the "
+                 "fold over all right documents; count and order depend on mode and lengths only.  Tie: the real "
+                 "driver functions with real Merger objects on streams of 1-4 documents x 3 modes x policies."),
+        "design_ref": "DESIGN.md section 4 (C18), docs/C18.md",
+        "note": NOTE_COMMON,
+        "technique": "Coq proof (list inductions over an abstract merge2) + differential correspondence",
+    },
+    "C11": {
+        "text": ("Theorems (Coq, no axioms) over a model of Merger.merge_with with a mergeat path (per-target "
+                 "dispatch, root-only replacement, the set_value route for scalars): C11_frame - nothing outside "
+                 "the matched subtrees changes, for all inputs; C11_targets_merged - each matched container "
+                 "becomes the C05 merge of its old content with the right-hand document (guarded against the "
+                 "scalar-into-scalar route, listed findings F-C11-1..3 with a _refuted witness); "
+                 "C11_unmatched_is_error.  The target locations and the document after path creation are inputs "
+                 "obtained from the real Processor (path creation is C09).  Tie: left documents x target paths "
+                 "(single, wildcard/search multi, missing, uncreatable) x right documents of every root type x "
+                 "policies."),
+        "design_ref": "DESIGN.md section 4 (C11), docs/C11.md",
+        "note": NOTE_COMMON + "  Processor.get_nodes results are an input of this model.",
+        "technique": "Coq proof (frame lemma over identity-addressed targets) + differential correspondence",
+    },
 }
